@@ -7,6 +7,21 @@ ROOT = os.path.dirname(os.path.dirname(os.path.abspath(__file__)))
 
 # id -> (category, technique, level text, level note, design ref)
 CHECKS = {
+    "C02": ("model_checking",
+            "TLA+ denotation Eval (one clause per layer, mentioning only its own configuration and Eval of the rest) checked by TLC over an enumerated program space + one generated C++ program per stack compared exactly with Eval",
+            "TLC enumerates stacks from the layer grammar (one per grammar-adjacent pair of layer kinds with N and M rotating independently over 1..4, plus seeded stacks to depth 5), checks well-kindedness, definedness and the one-line law of the outermost layer, and emits every stack with the values Eval prescribes at every in-domain coordinate of a dyadic grid; each stack becomes a translation unit that builds the real stack with pairwise distinct configuration values and compares both lookup forms exactly, under assertions + ASan/UBSan.",
+            "Trusted: TLC, g++ 12, lib/gen_stack.py (descriptor to C++ type), harness/stack_common.hpp. The program space is covered pairwise + sampled, not exhaustively; interpolators sit over integer-coordinate backends as the grammar states.",
+            "DESIGN.md section 4, C02"),
+    "C13": ("exploration",
+            "program-space exploration driven by the TLA+ kind system: TLC enumerates well-kinded and ill-kinded stacks, each becomes a generated translation unit exercising the whole field API (must compile and run clean) or must be rejected by the compiler",
+            "Stack!WellKinded is the library's kind system written down once; StackMC enumerates well-kinded stacks (pairwise adjacency cover, seeded depth <= 5, helper chains to depth 10) and one ill-kinded stack per stated rule; the generated program asserts the backend concept and trivially copyable views and uses parameter-pack construction, default construction, views, both lookup forms, copy/move construction and assignment, configuration/backend accessors, conversion from a compatible stack, dump and load; g++ and the sanitised run are the judges.",
+            "Exploration, not exhaustive enumeration of all stacks of depth <= 5. CUDA backends are not compiled (no CUDA runtime): cuda_device_array is listed in KNOWN_FINDINGS.txt as unverifiable here. ViewBytes is a lower bound (padding ignored), well-kinded stacks stay below 200 bytes.",
+            "DESIGN.md section 4, C13"),
+    "C17": ("model_checking",
+            "TLA+ Configs (i-th configuration belongs to the i-th layer) over TLC-enumerated stacks and helper chains + generated programs reading configurations back, rebuilding and using the positional helper",
+            "For every enumerated stack (pairwise distinct configuration values; chains of depth 2..10 whose adjacent layers share a configuration type but not its value) the generated program walks get_backend() on owning and non-owning data with statically checked types, compares every get_configuration() with the argument it was built from, rebuilds a field from the reported configurations and storage and compares it at every query, and builds through make_parameter_pack_for comparing every layer.",
+            "Trusted: TLC, g++ 12, lib/gen_stack.py. Configuration values are small integers (exact in every scalar type).",
+            "DESIGN.md section 4, C17"),
     "C06": ("model_checking",
             "TLA+ grammar of the binary format over 16-bit limbs checked by TLC (Parse o Ser = id) + byte-exact comparison of real dumps with the specification's stream + TLC parsing dumps of random bit patterns",
             "TLC checks the round-trip and grammar laws for 20 catalogue stacks covering every serialisable layer and value sets with signed zeros, subnormals, infinities and NaN payloads; every instance is built on the real library, dumped and compared byte for byte with the stream the specification prescribes (an independent definition of the format), reloaded, compared layer by layer and bit by bit, and re-dumped; random bit patterns dumped by the library are parsed independently by TLC.",
